@@ -116,7 +116,8 @@ def annotate_fn(item_text, name, c):
     for rw in c.get('rewrites', []):
         for mm in re.finditer(rw['find'], msk[m.end():]):
             a, b = m.end() + mm.start(), m.end() + mm.end()
-            edits.append(('replace', a, b, '/*@X<*/%s/*@X:%s>*/' % (rw['to'], item_text[a:b])))
+            new = mm.expand(rw['to']) if rw.get('expand') else rw['to']
+            edits.append(('replace', a, b, '/*@X<*/%s/*@X:%s>*/' % (new, item_text[a:b])))
     for ins in c.get('inserts', []):
         pat = ins.get('after') or ins['before']
         hits = [mm for mm in re.finditer(pat, msk[body_open:])]
